@@ -38,6 +38,10 @@ def body(run):
     chan = [{"kind": "channel", "pol": p, "mode": m} for p in table[0]["sym"] if p != "None" for m in ("Sign", "SignAndEncrypt")]
     if not q:
         chan = chan * 3
+    import os
+    if os.environ.get("VERIF_CORRUPT"):
+        sym[7] = dict(sym[7]); sym[7]["clientSend"] = dict(sym[7]["clientSend"]); sym[7]["clientSend"]["enc"] = dict(sym[7]["clientSend"]["enc"], off=sym[7]["clientSend"]["enc"]["off"] + 1)
+        run.log("VERIF_CORRUPT: offset of one key term changed; the replay must reject it")
     run.log("TLC: %d states; %d rows (+%d repetitions with fresh nonces, %d channel reflections)" % (run.cov["states"], len(sym), len(extra), len(chan)))
     results = run.go_run(exe[0], [], cases=table + sym + extra + chan, timeout=2400)
     if len(results) != len(sym) + len(extra) + len(chan):
